@@ -977,6 +977,14 @@ pub fn c09(out: &mut Vec<String>, rng: &mut Rng, tier: &str) {
             out.push(format!("C09 prog {} {} {} {} => {}", tag, kind, enc_conf(&conf), toks.join(" "), res));
         }
     }
+    // sample counts of states standing for more than 2^24 observations (beyond the integers an f32 can count)
+    for (d, extra) in [(24usize, 1000usize), (25, 3), (22, 5)] {
+        out.push(big_count_case::<f32, Arithmetic<f32>>("arith", d, extra));
+        out.push(big_count_case::<f32, Geometric<f32>>("geo", d, extra));
+        out.push(big_count_case::<f32, Harmonic<f32>>("harm", d, extra));
+        out.push(big_count_case::<f32, Paired<f32>>("paired", d, extra));
+        out.push(big_count_case::<f64, Arithmetic<f64>>("arith", d, extra));
+    }
     // long chunks through extend / from_iter (more than a thousand observations per call)
     for (i, n) in [1024usize, 1025, 2050, 3000, 5000].iter().enumerate() {
         for kind in ["arith", "geo", "unpaired"] {
@@ -1029,6 +1037,40 @@ pub fn c09(out: &mut Vec<String>, rng: &mut Rng, tier: &str) {
         }
         out.push(format!("{} => {}", l, arith_query(&reduced, conf)));
     }
+}
+
+/// sample counts of very large states: a one-observation state doubled `d` times (`s = s + s` / `s += s`), then
+/// `extra` single appends; and the same doubled state merged with a chunk of `extra` observations
+pub fn big_count_case<F: FElem, S: Acc + Clone>(kind: &str, d: usize, extra: usize) -> String {
+    let one: Vec<String> = match kind {
+        "paired" => vec![fenc::<F>(1.5), fenc::<F>(0.5)],
+        "unpaired" => vec!["A".into(), fenc::<F>(1.5)],
+        _ => vec![fenc::<F>(1.5)],
+    };
+    let res = guarded(|| {
+        let mut s = S::from_iter(&one);
+        for i in 0..d {
+            if i % 2 == 0 {
+                s = s.clone().add(s.clone());
+            } else {
+                let c = s.clone();
+                s.merge_assign(c);
+            }
+        }
+        let mut a = s.clone();
+        for _ in 0..extra {
+            a.append(&one);
+        }
+        let mut chunk: Vec<String> = Vec::new();
+        for _ in 0..extra {
+            chunk.extend(one.clone());
+        }
+        let bq = s.clone().add(S::from_iter(&chunk));
+        let conf = Confidence::new_two_sided(0.9);
+        let first = |q: String| q.split(' ').next().unwrap_or("?").to_string();
+        format!("{} {}", first(a.query(conf)), first(bq.query(conf)))
+    });
+    format!("C09 count {} {} {} {} => {}", F::TAG, kind, d, extra, res)
 }
 
 pub fn fenc_pub<F: FElem>(x: f64) -> String {
